@@ -117,34 +117,45 @@ def run(ctx, with_contradiction=True):
             pass
         arg = t[3][0] if t.tag == 'ev' and t[3] else None
         if arg is not None and e['decl'].split('::')[-1] in ('extend', 'extend_from_slice', 'append'):
-            # what is appended, element by element: `extend(xs.iter().flat_map(|x| x.as_bytes()))`, `extend([a, b, c].iter().flat_map(..))`
-            src, fns_ = arg, []
-            while True:
-                s0 = src
-                while s0.tag == 'mut':
-                    s0 = s0[1]
-                if s0.tag == 'flatten':
-                    src = s0[1]
-                elif s0.tag == 'map':
-                    fns_.append(s0[2])
-                    src = s0[1]
-                elif s0.tag == 'adapt' and s0[1] in ('copied', 'cloned'):
-                    src = s0[2]
-                else:
-                    src = s0
-                    break
-            if src.tag == 'array' and fns_:
-                for x in src.args:
-                    v = x
-                    for f_ in reversed(fns_):
-                        v = ctx.eng.apply(f_, (v,))
-                    expanded.append((e, T('ev', 'call', e['decl'], (v,), t[4]), False))
-                continue
-            if fns_:
-                el = mk_elem(ctx.eng, arg)
-                while el.tag == 'elem' and el[1].tag in ('call',):
-                    el = el[1]          # the bytes of one encoded element, not one byte of it
-                expanded.append((e, T('ev', 'call', e['decl'], (el,), t[4]), True))
+            # what is appended, piece by piece and element by element: `extend(xs.iter().flat_map(|x| x.as_bytes()))`,
+            # `extend([a, b, c].iter().flat_map(..))`, `extend(a.iter().chain(b).chain(c).copied())`,
+            # `extend(ls.iter().zip(rs).flat_map(|(l, r)| l.bytes().iter().chain(r.bytes()).copied()))`
+            def pieces(x, each, depth=0):
+                x0 = x
+                while x0.tag == 'mut':
+                    x0 = x0[1]
+                if depth > 12:
+                    return [(x0, each)]
+                if x0.tag == 'adapt' and x0[1] in ('copied', 'cloned', 'iter', 'into_iter', 'by_ref') and len(x0.args) >= 3:
+                    return pieces(x0[2], each, depth + 1)
+                if x0.tag == 'chain':
+                    return pieces(x0[1], each, depth + 1) + pieces(x0[2], each, depth + 1)
+                if x0.tag == 'flatten':
+                    inner = x0[1]
+                    while inner.tag == 'mut':
+                        inner = inner[1]
+                    if inner.tag == 'map':
+                        src = inner[1]
+                        s1 = src
+                        while s1.tag == 'mut' or (s1.tag == 'adapt' and s1[1] in ('iter', 'into_iter', 'copied', 'cloned') and len(s1.args) >= 3):
+                            s1 = s1[1] if s1.tag == 'mut' else s1[2]
+                        if s1.tag == 'array':
+                            out_ = []
+                            for it_ in s1.args:
+                                out_ += pieces(ctx.eng.apply(inner[2], (it_,)), each, depth + 1)
+                            return out_
+                        return pieces(ctx.eng.apply(inner[2], (mk_elem(ctx.eng, src),)), True, depth + 1)
+                    return pieces(mk_elem(ctx.eng, inner), True, depth + 1)
+                if x0.tag == 'map':
+                    return pieces(ctx.eng.apply(x0[2], (mk_elem(ctx.eng, x0[1]),)), True, depth + 1)
+                return [(x0, each)]
+            ps = pieces(arg, None)
+            if len(ps) > 1 or (ps and ps[0][1]):
+                for (v, each_) in ps:
+                    el = v
+                    while el.tag == 'elem' and el[1].tag in ('call',):
+                        el = el[1]          # the bytes of one encoded element, not one byte of it
+                    expanded.append((e, T('ev', 'call', e['decl'], (el,), t[4]), each_))
                 continue
         expanded.append((e, t, None))
     for e, t, forced_each in expanded:
@@ -177,6 +188,9 @@ def run(ctx, with_contradiction=True):
             # both written by one closure applied to each (l, r) pair (`izip!(li, ri).for_each(|(l, r)| ..)`): order inside the closure
             same_loop = True
             follows = ctx.must_follow(l_e['cbody'], l_e['inner']['bb'], r_e['inner']['bb'])
+        if l_e is r_e and enc_seq[7][2] and enc_seq[8][2]:
+            # two pieces of one per-element expansion (`flat_map(|(l, r)| l.bytes().chain(r.bytes()))`): written pairwise, in that order
+            same_loop, follows = True, True
         rep.check(bool(same_loop) and follows, 'R-C15-1', 'R-C15-1/encoder/interleaved', 'L and R are written pairwise (L then R) in one loop',
                   'L and R are not written pairwise in one loop', ctx.where(enc, l_e['bb']))
 
@@ -291,7 +305,21 @@ def run(ctx, with_contradiction=True):
     # d1 count is the decoded degree
     d1 = terms.get('d1')
     if d1 is not None:
-        rng = [x for x in walk(d1) if x.tag == 'range']
+        rng = [x for x in walk(d1) if x.tag == 'range' and x[1].tag == 'const' and x[1][1] == 0]
+        if not rng:
+            # filled by a push in a counting loop (`for _ in 0..degree { d1.push(parse(..)?) }`): the range is the loop's
+            from bpsa.terms import ev_site
+            for ev_ in [x for x in walk(d1) if x.tag == 'ev' and x[1] == 'call' and x[2].endswith('::push')]:
+                bkey_, ebb_ = ev_site(ev_)
+                eb_ = ctx.facts.by_key.get(bkey_)
+                if eb_ is None:
+                    continue
+                for lp_ in ctx.enclosing_loops(eb_, ebb_):
+                    it_ = getattr(lp_, 'index_range', None) or lp_.iter_term
+                    while it_ is not None and it_.tag == 'mut':
+                        it_ = it_[1]
+                    if it_ is not None and it_.tag == 'range' and lp_.driver_only_exit and ctx.every_iteration(eb_, lp_, ebb_):
+                        rng.append(it_)
         good = bool(rng) and rng[0][1].tag == 'const' and rng[0][1][1] == 0 and any(y is terms.get('extension_degree') or y is ctx.eng.expand(terms.get('extension_degree')) for y in walk(rng[0][2]))
         rep.check(good, 'R-C15-1', 'R-C15-1/decoder/d1-count', 'exactly `degree` scalars are read into d1 (0..degree)', 'd1 is read %s times' % (short(rng[0], 100) if rng else '?'), ctx.where(dec))
 
